@@ -42,7 +42,10 @@ class SeqSuite(Suite):
         lines = ["case 0 %s" % kind]
         v = 100
         for o in ops:
-            if o == "push":
+            if o.startswith("pushn "):
+                lines.append("%s %d" % (o, v))      # `pushn k` -> `pushn k v`
+                v += 1
+            elif o == "push":
                 if kind.split()[0] == "q":
                     lines.append("push %d" % v)
                     v += 1
@@ -75,6 +78,21 @@ class SeqSuite(Suite):
             for n in range(1, (ln_c if kind in ("q s1w1", "q s1", "q w1", "vq w1") else ln_c - 1) + 1):
                 for ops in itertools.product(alpha, repeat=n):
                     cases.append(self._mk(kind, ops))
+        # 1c. a pop() during which the hand-over of the item throws (plain call / from a coroutine): the item must stay
+        for n in range(2, 6 if tier == "quick" else 8):
+            for ops in itertools.product(["push", "pop", "popthrow", "cothrow", "size"], repeat=n):
+                if ("popthrow" in ops or "cothrow" in ops) and "push" in ops:
+                    cases.append(self._mk("q", ops))
+        for n in range(2, 5 if tier == "quick" else 6):
+            for ops in itertools.product(["push", "pop", "popthrow", "cothrow", "cons 2"], repeat=n):
+                if ("popthrow" in ops or "cothrow" in ops) and "push" in ops:
+                    cases.append(self._mk("q s1w1", ops))
+        # 1d. queue<std::vector<int>> (a type with an initializer_list constructor) filled through the emplace-style
+        #     push(k, v): the item is k copies of v whether it is queued or handed to a waiting pop
+        for n in range(1, 5 if tier == "quick" else 7):
+            for ops in itertools.product(["pushn 3", "pushn 2", "push", "pop", "cons 2", "upop 3"], repeat=n):
+                if any(o.startswith("push") for o in ops) and ("pop" in ops or "cons 2" in ops):
+                    cases.append(self._mk("q vec", ops))
         # 1b. a push whose item constructor throws, with and without pops waiting
         for n in range(1, 5 if tier == "quick" else 7):
             for ops in itertools.product(["pushthrow", "push", "pop", "cons 2", "upop 3"], repeat=n):
@@ -85,13 +103,14 @@ class SeqSuite(Suite):
         for i in range(n):
             kind = "q" if rng.random() < 0.7 else "vq"
             if i % 3 == 1:
-                kind += " " + (rng.choice(["nl", "s1", "w1", "s1w1", "w1m"]) if kind == "q" else rng.choice(["nl", "w1"]))
+                kind += " " + (rng.choice(["nl", "s1", "w1", "s1w1", "w1m", "vec", "vec"]) if kind == "q" else rng.choice(["nl", "w1"]))
+            vec = kind == "q vec"
             nops = rng.randint(3, 14) if rng.random() < 0.3 else rng.randint(10, 50)
             bias = rng.choice([0.3, 0.5, 0.7])
             # callback consumers re-enter the queue from inside the resolving call; if the queue ever resolved a promise
             # under its lock the harness notices at once (it probes the lock before re-entering) instead of deadlocking
             cons_kinds = ["cons", "cbcons"] if i % 2 == 0 else ["cons"]
-            throwing = kind.split()[0] == "q" and i % 2 == 0
+            throwing = kind.split()[0] == "q" and not vec and i % 2 == 0
             ops = []
             for k in range(nops):
                 if rng.random() < 0.15:
@@ -99,7 +118,9 @@ class SeqSuite(Suite):
                 r = rng.random()
                 if r < 0.74:
                     if rng.random() < bias:
-                        ops.append("push")
+                        ops.append("pushn %d" % rng.randint(2, 4) if vec and rng.random() < 0.6 else "push")
+                    elif throwing and rng.random() < 0.15:
+                        ops.append(rng.choice(["popthrow", "cothrow"]))
                     elif rng.random() < 0.35:
                         ops.append("%s %d" % (rng.choice(cons_kinds), rng.randint(1, 4)))
                     else:
@@ -163,6 +184,9 @@ class SeqSuite(Suite):
         def pending():
             return sorted(i for i, s in pop_state.items() if s == "pending")
 
+        def state_throw_ok(head):
+            return head[-1] in ("threw", "n/a", "full")
+
         def new_pop(i, state):
             if i in pop_state:
                 msgs.append("duplicate: pop#%d issued twice" % i)
@@ -175,6 +199,8 @@ class SeqSuite(Suite):
             nonlocal given
             if o == "v:-666":
                 msgs.append("corrupt: pop#%d received a destroyed or moved-from item" % i)
+            if o == "v:-777":
+                msgs.append("corrupt: pop#%d received an item that is not the k copies of v that push(k, v) constructs" % i)
             if is_value(o):
                 if given >= len(pushed):
                     msgs.append("duplicate: pop#%d received %s but every pushed item was already delivered" % (i, o))
@@ -212,7 +238,7 @@ class SeqSuite(Suite):
                     if item_cap is None or pend or n_items < item_cap:
                         msgs.append("spurious: `%s` refused although the item store (capacity %s) holds %d items and pops %s wait"
                                     % (op, item_cap, n_items, pend))
-                elif w[0] == "pop":
+                elif w[0] in ("pop", "popthrow", "cothrow"):
                     if wait_cap is None or n_items > 0 or len(pend) < wait_cap:
                         msgs.append("spurious: pop refused although %d items are queued and only pops %s wait (capacity %s)"
                                     % (n_items, pend, wait_cap))
@@ -221,6 +247,24 @@ class SeqSuite(Suite):
                 if completions:
                     msgs.append("spurious: a refused operation resolved %s" % completions)
                 continue
+            if w[0] in ("popthrow", "cothrow") and head[-1] in ("threw", "n/a"):
+                # the hand-over of the oldest item threw: the caller is told, the item stays (checked by what the next
+                # pop receives and by size()), no future exists
+                if head[-1] == "threw" and n_items == 0:
+                    msgs.append("spurious: `%s` threw although the queue is empty (nothing to hand over)" % op)
+                if completions or evs:
+                    msgs.append("spurious: `%s` resolved / issued %s" % (op, evs))
+                continue
+            if w[0] in ("popthrow", "cothrow") and n_items > 0 and not state_throw_ok(head):
+                msgs.append("lost: `%s` on a queue with %d items: the hand-over must throw to the caller, got `%s`"
+                            % (op, n_items, " ".join(head)))
+            if w[0] == "popthrow":
+                w = ["pop"]             # (empty queue: an ordinary pop)
+            if w[0] in ("push", "pushn"):
+                if w[0] == "pushn":
+                    w = ["push", str(int(w[1]) * 1000 + int(w[2]))]
+                elif cfg == "vec":
+                    w = ["push", str(1000 + int(w[1]))]
             if w[0] == "push":
                 pushed.append(len(pushed) if void else int(w[1]))
                 woke = head[1] == "woke=1"
@@ -256,7 +300,7 @@ class SeqSuite(Suite):
                 # no item exists; the only future it may touch is the oldest waiting pop, which it may only cancel
                 if completions and (not pend or completions != [(pend[0], "canceled")]):
                     msgs.append("spurious: a push that threw (pops %s waiting) resolved %s" % (pend, completions))
-            elif w[0] in ("cons", "cbcons"):
+            elif w[0] in ("cons", "cbcons", "cothrow"):
                 if any(pop_state.get(i) == "pending" for i, o in completions):
                     msgs.append("spurious: %s resolved older futures %s" % (w[0], completions))
             elif w[0] == "upop":
@@ -371,6 +415,11 @@ class SchedSuite(Suite):
             for ops in itertools.product(["pushthrow", "push", "pop", "size", "deliver 0"], repeat=n):
                 if "pushthrow" in ops:
                     cases.append(self._mk("sq", ops))
+        # a pop() during which the hand-over of the item throws
+        for n in range(2, 6 if tier == "quick" else 7):
+            for ops in itertools.product(["popthrow", "push", "pop", "size", "hold popthrow", "deliver 0"], repeat=n):
+                if any("popthrow" in o for o in ops) and "push" in ops:
+                    cases.append(self._mk("sq", ops))
         n = 3000 if tier == "quick" else 60000
         for i in range(n):
             kind = "sq" if rng.random() < 0.7 else "svq"
@@ -393,7 +442,7 @@ class SchedSuite(Suite):
                     npend -= 1
                     continue
                 if r < 0.70:
-                    op = "push" if rng.random() < bias else "pop"
+                    op = "push" if rng.random() < bias else ("popthrow" if kind == "sq" and rng.random() < 0.12 else "pop")
                 elif r < 0.82:
                     op = "upop %d" % rng.randint(1, 9)
                 elif r < 0.88:
@@ -421,6 +470,9 @@ class SchedSuite(Suite):
                     if items:
                         items -= 1
                     else:
+                        parked += 1
+                elif op == "popthrow":
+                    if not items:
                         parked += 1
                 elif (op.startswith("upop") or op == "pushthrow") and parked:
                     parked -= 1
@@ -550,8 +602,16 @@ class SchedSuite(Suite):
                                        "early": early, "tag": "pushthrow"})
                         if early:
                             expect = [(tgt, "canceled")]
-            elif w[0] == "pop":
+            elif w[0] == "popthrow" and status == "threw":
+                # the hand-over threw: the caller is told, no future exists, the item stays for the next pop
+                pop_state[int(label[4:])] = "threw"
+                if strict and n_items == 0:
+                    msgs.append("spurious: popthrow threw although the queue is empty (nothing to hand over)")
+            elif w[0] in ("pop", "popthrow"):
                 i = int(label[4:])
+                if w[0] == "popthrow" and strict and n_items > 0:
+                    msgs.append("lost: popthrow on a queue with %d items: the hand-over must throw to the caller, got %s"
+                                % (n_items, status))
                 if status == "pending":
                     pop_state[i] = "pending"
                     waiters.append(i)
@@ -622,6 +682,12 @@ class SchedSuite(Suite):
                     want = sorted([(c["pop"], c["out"]) for c in parked if not c["early"]] + [(i, "canceled") for i in waiters])
                     if sorted(completions) != want:
                         msgs.append("destroy: expected %s, got %s" % (want, sorted(completions)))
+                # a deferred popthrow that took effect during the flush and threw leaves no future behind
+                for c in parked:
+                    if c["type"] != "resolve" and c["w"][0] == "popthrow":
+                        i = int(c["label"][4:])
+                        if i not in [j for j, _ in completions]:
+                            pop_state[i] = "threw"
                 for i, o in completions:
                     if i not in pop_state:
                         pop_state[i] = "incall"
@@ -680,7 +746,7 @@ class SchedSuite(Suite):
             else:
                 label, status = head[0], (head[1] if len(head) > 1 else "")
                 r = head[2] if len(head) > 2 else ""
-                if w[0] == "pop":
+                if w[0] in ("pop", "popthrow"):
                     pop_state[int(label[4:])] = "incall"
                 if status in ("holding", "blocked", "midcall"):
                     if status == "midcall":
